@@ -92,7 +92,7 @@ SAMESITE = [None, '', 'Lax', 'lax', 'STRICT', 'strict', 'None', 'nOnE', 'bogus',
 DOMAINS = [None, '', 'example.com', '.example.org', 'é.com']
 PATHS = [None, '', '/', '/a/b', '/é']
 MAXAGES = [None, 0, 1, 300, -5, 2 ** 40, 15.3, 0.0, 0.5, -2.75, 1e3, '15', ' 7 ', '1_000', '+3', '-4', '',
-           'abc', '1.5', '0', '1__0', '_1']
+           'abc', '1.5', '0', '1__0', '_1', '\x1f7', '\xa08']
 
 
 def wire_maxage(x):
